@@ -9,11 +9,14 @@ package main
 
 import (
 	"bufio"
+	"bytes"
 	"context"
 	"encoding/json"
+	"errors"
 	"flag"
 	"fmt"
 	"hash/fnv"
+	"math"
 	"math/rand"
 	"os"
 	"path/filepath"
@@ -27,6 +30,8 @@ import (
 
 	"github.com/pinealctx/neptune/cache"
 	"github.com/redis/go-redis/v9"
+	"google.golang.org/grpc/codes"
+	"google.golang.org/grpc/status"
 
 	"verif/harness/internal/tr"
 )
@@ -49,6 +54,7 @@ type act struct {
 	Upd  bool   `json:"upd"`
 	D    int    `json:"d"`
 	Ks   []int  `json:"ks"`
+	Inj  string `json:"-"` // "fault": the store fails the call's first command; "ctx": the caller's context has ended
 	// init line of a plan
 	Now  int `json:"now"`
 	Size int `json:"size"`
@@ -63,9 +69,9 @@ type planLine struct {
 func (a act) rec() tr.E {
 	switch a.Op {
 	case "set":
-		return tr.E{"op": "set", "k": a.K, "v": a.V, "ht": a.Ht, "ttl": a.TTL, "nx": a.Nx, "keep": a.Keep}
+		return tr.E{"op": "set", "k": a.K, "v": a.V, "ht": a.Ht, "ttl": clampI(a.TTL), "nx": a.Nx, "keep": a.Keep}
 	case "get":
-		return tr.E{"op": "get", "k": a.K, "rm": a.Rm, "upd": a.Upd, "ttl": a.TTL}
+		return tr.E{"op": "get", "k": a.K, "rm": a.Rm, "upd": a.Upd, "ttl": clampI(a.TTL)}
 	case "rem":
 		return tr.E{"op": "rem", "k": a.K}
 	case "tick":
@@ -80,35 +86,109 @@ func (a act) rec() tr.E {
 
 func rp(c string, v int) tr.E { return tr.E{"c": c, "v": v} }
 
-func encVal(v int) []byte { return []byte("v" + strconv.Itoa(v)) }
+// clampI carries a number TLC cannot hold: beyond +-10^9 only "very large" matters (clocks stay
+// below 2*10^6 and key counts below 100, so the contract behaves identically).
+func clampI(x int) int {
+	if x > 1000000000 {
+		return 1000000000
+	}
+	if x < -1000000000 {
+		return -1000000000
+	}
+	return x
+}
+
+// values: 0 is the empty value (nil or zero-length), every 9th value is large
+func encVal(v int) []byte {
+	if v == 0 {
+		return nil
+	}
+	if v < 0 {
+		return []byte{}
+	}
+	b := []byte("v" + strconv.Itoa(v) + "|")
+	if v%9 == 0 {
+		b = append(b, bytes.Repeat([]byte{'x'}, 70000)...)
+	}
+	return b
+}
 
 func decVal(b []byte) int {
+	if len(b) == 0 {
+		return 0
+	}
 	s := string(b)
-	if !strings.HasPrefix(s, "v") {
+	bar := strings.IndexByte(s, '|')
+	if !strings.HasPrefix(s, "v") || bar < 0 || strings.Trim(s[bar+1:], "x") != "" {
 		return -1
 	}
-	n, err := strconv.Atoi(s[1:])
+	n, err := strconv.Atoi(s[1:bar])
 	if err != nil || n <= 0 {
+		return -1
+	}
+	if (n%9 == 0) != (len(s) > bar+1) {
 		return -1
 	}
 	return n
 }
 
+// error classes the package distinguishes (sentinels are grpc status errors): not-found,
+// already-exists, anything else is a fault of the backing store or of the caller's context.
 func errReply(err error) tr.E {
-	switch err {
-	case cache.ErrTTLKeyNotFound:
+	switch {
+	case errors.Is(err, cache.ErrTTLKeyNotFound) || status.Code(err) == codes.NotFound:
 		return rp("miss", 0)
-	case cache.ErrTTLKeyExists:
+	case errors.Is(err, cache.ErrTTLKeyExists) || status.Code(err) == codes.AlreadyExists:
 		return rp("exists", 0)
 	}
-	return rp("error: "+err.Error(), 0)
+	return rp("fault", 0)
 }
+
+// key naming schemes: the property ranges over any keys
+var prefixes = []string{"", "k", "user:", "a/b/", "é-", " "}
+var exotic = []string{"*", "k*?", "a\x00b", "line\nbreak", strings.Repeat("L", 3000), "[x]", "\\", "ключ", "%d%s"}
+
+func keyScheme(i int) func(int) string {
+	n := i % (len(prefixes) + 2)
+	if n < len(prefixes) {
+		return func(k int) string { return prefixes[n] + strconv.Itoa(k) }
+	}
+	return func(k int) string {
+		if k == 1 {
+			return "" // the empty key
+		}
+		return exotic[k%len(exotic)] + strconv.Itoa(k)
+	}
+}
+
+const watchdog = 10 * time.Second
+
+type held struct {
+	m tr.E
+	b []byte
+}
+
+type input struct{ buf, cp []byte }
 
 // one cache under test
 type sut struct {
-	c      cache.TTLCache
-	prefix string
-	ctx    context.Context // nil: context.Background(); racing callers carry their id here
+	c    cache.TTLCache
+	key  func(int) string
+	ctx  context.Context // nil: context.Background(); racing callers carry their id here
+	lazy bool            // returned slices are kept AS RETURNED and rendered when the history is over
+	held []held
+	ins  []input // every value slice handed to Set, with a private copy
+	scr  []byte  // when non-nil: one value buffer reused across Sets (a store that copies on the wire)
+	ttlo map[int]cache.SetOptFn
+	nx   cache.SetOptFn
+	keep cache.SetOptFn
+	dead bool // a call never came back: the instance is abandoned
+	mu   sync.Mutex
+}
+
+func newSut(c cache.TTLCache, scheme int, lazy bool) *sut {
+	return &sut{c: c, key: keyScheme(scheme), lazy: lazy, ttlo: map[int]cache.SetOptFn{},
+		nx: cache.WithMustNotExist(), keep: cache.WithKeepTTL()}
 }
 
 func (s *sut) context() context.Context {
@@ -118,9 +198,35 @@ func (s *sut) context() context.Context {
 	return context.Background()
 }
 
-func (s *sut) key(k int) string { return s.prefix + strconv.Itoa(k) }
+// hit renders a returned value now, or remembers the very slice for render()
+func (s *sut) hit(v []byte) tr.E {
+	if !s.lazy {
+		return rp("hit", decVal(v))
+	}
+	m := rp("hit", -2)
+	s.mu.Lock()
+	s.held = append(s.held, held{m, v})
+	s.mu.Unlock()
+	return m
+}
 
-func (s *sut) get(a act) (r tr.E) {
+// render fills in the retained results and reports whether every input slice is unchanged
+func (s *sut) render() (inmut bool) {
+	s.mu.Lock()
+	defer s.mu.Unlock()
+	for _, h := range s.held {
+		h.m["v"] = decVal(h.b)
+	}
+	s.held = nil
+	for _, in := range s.ins {
+		if !bytes.Equal(in.buf, in.cp) {
+			return false
+		}
+	}
+	return true
+}
+
+func (s *sut) get(ctx context.Context, a act) (r tr.E) {
 	defer func() {
 		if p := recover(); p != nil {
 			r = rp(fmt.Sprintf("panic: %v", p), 0)
@@ -132,56 +238,130 @@ func (s *sut) get(a act) (r tr.E) {
 	}
 	if a.Upd {
 		fns = append(fns, cache.WithUpdateTTL(int64(a.TTL)))
+		if a.K%3 == 0 {
+			fns = append(fns, cache.WithUpdateTTL(int64(a.TTL))) // an option given twice is the same option
+		}
 	}
-	v, err := s.c.Get(s.context(), s.key(a.K), fns...)
+	v, err := s.c.Get(ctx, s.key(a.K), fns...)
 	if err != nil {
 		return errReply(err)
 	}
-	return rp("hit", decVal(v))
+	return s.hit(v)
 }
 
-func (s *sut) do(a act) (r interface{}) {
+// do performs one call; the second result is the `inmut` observation of a Set (the slice the
+// harness passed is unchanged afterwards), true otherwise.
+func (s *sut) do(a act) (r interface{}, inmut bool) {
+	inmut = true
 	defer func() {
 		if p := recover(); p != nil {
 			r = rp(fmt.Sprintf("panic: %v", p), 0)
 		}
 	}()
 	ctx := s.context()
+	if a.Inj == "ctx" {
+		if a.K%2 == 0 {
+			c2, cancel := context.WithCancel(ctx)
+			cancel()
+			ctx = c2
+		} else {
+			c2, cancel := context.WithDeadline(ctx, time.Now().Add(-time.Hour))
+			defer cancel()
+			ctx = c2
+		}
+	}
 	switch a.Op {
 	case "set":
 		var fns []cache.SetOptFn
 		if a.Ht {
-			fns = append(fns, cache.WithTTL(int64(a.TTL)))
+			// option values are built once and reused across calls, like a caller would
+			s.mu.Lock()
+			o, ok := s.ttlo[a.TTL]
+			if !ok {
+				o = cache.WithTTL(int64(a.TTL))
+				s.ttlo[a.TTL] = o
+			}
+			s.mu.Unlock()
+			fns = append(fns, o)
 		}
 		if a.Nx {
-			fns = append(fns, cache.WithMustNotExist())
+			fns = append(fns, s.nx)
+			if a.V%2 == 0 {
+				fns = append(fns, s.nx)
+			}
 		}
 		if a.Keep {
-			fns = append(fns, cache.WithKeepTTL())
+			fns = append(fns, s.keep)
 		}
-		if err := s.c.Set(ctx, s.key(a.K), encVal(a.V), fns...); err != nil {
-			return errReply(err)
+		val := encVal(a.V)
+		if a.V == 0 && a.K%2 == 0 {
+			val = encVal(-1) // zero-length instead of nil
 		}
-		return rp("ok", 0)
+		if s.scr != nil {
+			s.scr = append(s.scr[:0], val...)
+			val = s.scr
+		}
+		cp := append([]byte{}, val...)
+		err := s.c.Set(ctx, s.key(a.K), val, fns...)
+		inmut = bytes.Equal(val, cp)
+		if s.scr == nil {
+			s.mu.Lock()
+			s.ins = append(s.ins, input{val, cp})
+			s.mu.Unlock()
+		}
+		if err != nil {
+			return errReply(err), inmut
+		}
+		return rp("ok", 0), inmut
 	case "get":
-		return s.get(a)
+		return s.get(ctx, a), true
 	case "rem":
 		if err := s.c.Remove(ctx, s.key(a.K)); err != nil {
-			return errReply(err)
+			return errReply(err), true
 		}
-		return rp("ok", 0)
+		return rp("ok", 0), true
 	case "clear":
 		s.c.Clear(ctx)
-		return rp("ok", 0)
+		return rp("ok", 0), true
 	case "probe":
 		rs := make([]tr.E, 0, len(a.Ks))
 		for _, k := range a.Ks {
-			rs = append(rs, s.get(act{Op: "get", K: k}))
+			rs = append(rs, s.get(ctx, act{Op: "get", K: k}))
 		}
-		return rs
+		return rs, true
 	}
 	tr.Fatal("unknown op %q", a.Op)
-	return nil
+	return nil, true
+}
+
+// call is do under a watchdog: a call that never comes back is an observation ("stuck"), the
+// instance is abandoned and the history ends there.
+func (s *sut) call(a act) (interface{}, bool) {
+	type res struct {
+		r  interface{}
+		im bool
+	}
+	ch := make(chan res, 1)
+	go func() {
+		r, im := s.do(a)
+		ch <- res{r, im}
+	}()
+	t := time.NewTimer(watchdog)
+	defer t.Stop()
+	select {
+	case x := <-ch:
+		return x.r, x.im
+	case <-t.C:
+		s.dead = true
+		if a.Op == "probe" {
+			rs := make([]tr.E, 0, len(a.Ks))
+			for range a.Ks {
+				rs = append(rs, rp("stuck", 0))
+			}
+			return rs, true
+		}
+		return rp("stuck", 0), true
+	}
 }
 
 // ---------------------------------------------------------------- fake redis
@@ -199,6 +379,32 @@ type fakeRedis struct {
 	data map[string]fentry
 	cmds []string
 	sch  *sched // when set, every command of an identified caller waits for the driver's grant
+	fail bool   // the next command is answered with an error and not executed
+}
+
+var errInjected = errors.New("fake redis: injected server error (LOADING)")
+
+// refuse is asked first by every command (under mu): a client does not send a command whose
+// context has ended, and an injected server error leaves the command unexecuted.
+func (f *fakeRedis) refuse(ctx context.Context, what string) error {
+	if err := ctx.Err(); err != nil {
+		f.fail = false
+		f.logf("%s -> not sent: %v", what, err)
+		return err
+	}
+	if f.fail {
+		f.fail = false
+		f.logf("%s -> injected error", what)
+		return errInjected
+	}
+	return nil
+}
+
+func short(k string) string {
+	if len(k) > 48 {
+		return fmt.Sprintf("%q...(%d bytes)", k[:24], len(k))
+	}
+	return strconv.Quote(k)
 }
 
 // sched serialises the commands of racing callers: each command is atomic, the ORDER in which
@@ -302,20 +508,23 @@ func (f *fakeRedis) Set(ctx context.Context, key string, value interface{}, d ti
 	f.gate(ctx)
 	f.mu.Lock()
 	defer f.mu.Unlock()
+	if err := f.refuse(ctx, "set"); err != nil {
+		return redis.NewStatusResult("", err)
+	}
 	old, had := f.live(key)
 	e := fentry{val: str(value)}
 	switch {
 	case d > 0:
 		ms, arg := pxOf(d)
-		f.logf("set %s %s (dur=%dns)", key, arg, int64(d))
+		f.logf("set %s %s (dur=%dns)", short(key), arg, int64(d))
 		e.exp = f.nowMs() + ms
 	case d == redis.KeepTTL:
-		f.logf("set %s keepttl", key)
+		f.logf("set %s keepttl", short(key))
 		if had {
 			e.exp = old.exp
 		}
 	default:
-		f.logf("set %s (dur=%dns)", key, int64(d))
+		f.logf("set %s (dur=%dns)", short(key), int64(d))
 	}
 	f.data[key] = e
 	return redis.NewStatusResult("OK", nil)
@@ -325,15 +534,18 @@ func (f *fakeRedis) SetNX(ctx context.Context, key string, value interface{}, d 
 	f.gate(ctx)
 	f.mu.Lock()
 	defer f.mu.Unlock()
+	if err := f.refuse(ctx, "setnx"); err != nil {
+		return redis.NewBoolResult(false, err)
+	}
 	e := fentry{val: str(value)}
 	switch d {
 	case 0:
-		f.logf("setnx %s", key)
+		f.logf("setnx %s", short(key))
 	case redis.KeepTTL:
-		f.logf("set %s keepttl nx", key)
+		f.logf("set %s keepttl nx", short(key))
 	default:
 		ms, arg := pxOf(d)
-		f.logf("set %s %s nx (dur=%dns)", key, arg, int64(d))
+		f.logf("set %s %s nx (dur=%dns)", short(key), arg, int64(d))
 		if ms <= 0 {
 			return redis.NewBoolResult(false, fmt.Errorf("ERR invalid expire time in 'set' command"))
 		}
@@ -350,7 +562,10 @@ func (f *fakeRedis) Get(ctx context.Context, key string) *redis.StringCmd {
 	f.gate(ctx)
 	f.mu.Lock()
 	defer f.mu.Unlock()
-	f.logf("get %s", key)
+	if err := f.refuse(ctx, "get"); err != nil {
+		return redis.NewStringResult("", err)
+	}
+	f.logf("get %s", short(key))
 	e, ok := f.live(key)
 	if !ok {
 		return redis.NewStringResult("", redis.Nil)
@@ -362,7 +577,10 @@ func (f *fakeRedis) GetDel(ctx context.Context, key string) *redis.StringCmd {
 	f.gate(ctx)
 	f.mu.Lock()
 	defer f.mu.Unlock()
-	f.logf("getdel %s", key)
+	if err := f.refuse(ctx, "getdel"); err != nil {
+		return redis.NewStringResult("", err)
+	}
+	f.logf("getdel %s", short(key))
 	e, ok := f.live(key)
 	if !ok {
 		return redis.NewStringResult("", redis.Nil)
@@ -375,8 +593,11 @@ func (f *fakeRedis) Expire(ctx context.Context, key string, d time.Duration) *re
 	f.gate(ctx)
 	f.mu.Lock()
 	defer f.mu.Unlock()
+	if err := f.refuse(ctx, "expire"); err != nil {
+		return redis.NewBoolResult(false, err)
+	}
 	s := formatSec(d)
-	f.logf("expire %s %d (dur=%dns)", key, s, int64(d))
+	f.logf("expire %s %d (dur=%dns)", short(key), s, int64(d))
 	e, ok := f.live(key)
 	if !ok {
 		return redis.NewBoolResult(false, nil)
@@ -394,9 +615,12 @@ func (f *fakeRedis) Del(ctx context.Context, keys ...string) *redis.IntCmd {
 	f.gate(ctx)
 	f.mu.Lock()
 	defer f.mu.Unlock()
+	if err := f.refuse(ctx, "del"); err != nil {
+		return redis.NewIntResult(0, err)
+	}
 	var n int64
 	for _, k := range keys {
-		f.logf("del %s", k)
+		f.logf("del %s", short(k))
 		if _, ok := f.live(k); ok {
 			delete(f.data, k)
 			n++
@@ -437,6 +661,10 @@ func (f *fakeRedis) scanProcess(ctx context.Context, c redis.Cmder) error {
 	cmd, ok := c.(*redis.ScanCmd)
 	if !ok {
 		return fmt.Errorf("fake redis: scanProcess on %T", c)
+	}
+	if err := f.refuse(ctx, "scan"); err != nil {
+		cmd.SetErr(err)
+		return err
 	}
 	args := cmd.Args()
 	var cursor uint64
@@ -505,7 +733,6 @@ func (f *fakeRedis) scanProcess(ctx context.Context, c redis.Cmder) error {
 }
 
 // ---------------------------------------------------------------- executors
-var prefixes = []string{"", "k", "user:", "a/b/", "é-", " "}
 
 func allKeys(nk int) []int {
 	ks := make([]int, nk)
@@ -517,29 +744,110 @@ func allKeys(nk int) []int {
 
 func tick(d int) { atomic.AddInt64(&clock, int64(d)) }
 
+// sink writes a history's events at once (flushed per event: crash evidence survives) or, for
+// the histories that keep returned slices until the end, after the retained results are rendered.
+type sink struct {
+	w    *tr.W
+	lazy bool
+	buf  []tr.E
+}
+
+func (k *sink) emit(e tr.E) {
+	if k.lazy {
+		k.buf = append(k.buf, e)
+		return
+	}
+	k.w.Emit(e)
+}
+
+func (k *sink) end(suts ...*sut) {
+	inmut, stuck := true, 0
+	for _, s := range suts {
+		if !s.render() {
+			inmut = false
+		}
+		if s.dead {
+			stuck++
+		}
+	}
+	for _, e := range k.buf {
+		k.w.Emit(e)
+	}
+	k.buf = nil
+	k.w.Emit(tr.E{"ev": "end", "inmut": inmut, "stuck": stuck})
+}
+
+// decoy: a second, independent cache of the same kind used by the same caller between the
+// judged calls, with the same key names (on redis: another prefix of the same server).  What it
+// answers is not judged; whatever it does must not show in the judged cache.
+type decoy struct {
+	s   *sut
+	rng *rand.Rand
+	nk  int
+	nv  int
+}
+
+func (d *decoy) poke() {
+	if d == nil || d.s.dead || d.rng.Intn(3) != 0 {
+		return
+	}
+	k := d.rng.Intn(d.nk) + 1
+	d.nv++
+	var a act
+	switch x := d.rng.Intn(10); {
+	case x < 4:
+		a = act{Op: "set", K: k, V: 100000 + d.nv, Nx: d.rng.Intn(3) == 0, Ht: d.rng.Intn(2) == 0, TTL: 1 + d.rng.Intn(4)}
+	case x < 6:
+		a = act{Op: "get", K: k, Rm: d.rng.Intn(2) == 0, Upd: d.rng.Intn(3) == 0, TTL: 1 + d.rng.Intn(4)}
+	case x < 8:
+		a = act{Op: "rem", K: k}
+	case x < 9:
+		a = act{Op: "clear"}
+	default:
+		a = act{Op: "probe", Ks: allKeys(d.nk)}
+	}
+	d.s.call(a)
+}
+
+func cfgRaw(size, dttl int) string { return fmt.Sprintf("size=%d ttl=%d", size, dttl) }
+
 // runMem executes a history on the in-memory cache alone.
-func runMem(w *tr.W, src string, size, dttl, nk, now, pfx int, acts []act) {
+func runMem(w *tr.W, src string, size, dttl, nk, now, idx int, acts []act) {
 	atomic.StoreInt64(&clock, int64(now))
-	s := &sut{c: cache.NewTTLMemCache(size, int64(dttl)), prefix: prefixes[pfx%len(prefixes)]}
-	w.Emit(tr.E{"ev": "reset", "size": size, "dttl": dttl, "nk": nk, "now": now, "threads": 1,
-		"impl": "mem", "src": src})
+	lazy := idx%2 == 1
+	out := &sink{w: w, lazy: lazy}
+	s := newSut(cache.NewTTLMemCache(size, int64(dttl)), idx, lazy)
+	var dc *decoy
+	if idx%3 != 0 {
+		dc = &decoy{s: newSut(cache.NewTTLMemCache(3, 2), idx, false), rng: rand.New(rand.NewSource(int64(idx)*7919 + int64(now))), nk: nk}
+	}
+	w.Emit(tr.E{"ev": "reset", "size": clampI(size), "dttl": clampI(dttl), "nk": nk, "now": now, "threads": 1,
+		"impl": "mem", "src": src, "cfg": cfgRaw(size, dttl), "lazy": lazy})
 	for _, a := range acts {
 		if a.Op == "tick" {
 			tick(a.D)
-			w.Emit(tr.E{"ev": "call", "a": a.rec(), "r": rp("ok", 0)})
+			out.emit(tr.E{"ev": "call", "a": a.rec(), "r": rp("ok", 0)})
 			continue
 		}
-		w.Emit(tr.E{"ev": "call", "a": a.rec(), "r": s.do(a)})
+		dc.poke()
+		r, im := s.call(a)
+		e := tr.E{"ev": "call", "a": a.rec(), "r": r}
+		if a.Op == "set" {
+			e["inmut"] = im
+		}
+		out.emit(e)
+		if s.dead {
+			break
+		}
+	}
+	if dc != nil {
+		out.end(s, dc.s)
+	} else {
+		out.end(s)
 	}
 }
 
-// runBoth executes a history on the in-memory cache and on the redis-backed cache over the
-// fake server, in lock step under the same clock.
-func runBoth(w *tr.W, src string, size, dttl, nk, now, pfx int, acts []act) {
-	atomic.StoreInt64(&clock, int64(now))
-	fr := newFake()
-	m := &sut{c: cache.NewTTLMemCache(size, int64(dttl)), prefix: "m" + prefixes[pfx%len(prefixes)]}
-	r := &sut{c: cache.NewTTLRdsCache(fr, "ttl:"+prefixes[pfx%len(prefixes)], int64(dttl)), prefix: "k"}
+func seedServer(fr *fakeRedis, nk int) []string {
 	// keys of other prefixes live in the same server, interleave with ours in SCAN order and
 	// must survive Clear
 	foreign := []string{"other:1", "ttl", "ttlx:k1", "tt:k2", "k1", "session:9f", "z"}
@@ -549,28 +857,121 @@ func runBoth(w *tr.W, src string, size, dttl, nk, now, pfx int, acts []act) {
 	for _, k := range foreign {
 		fr.data[k] = fentry{val: "x"}
 	}
-	w.Emit(tr.E{"ev": "reset", "size": size, "dttl": dttl, "nk": nk, "now": now, "threads": 1,
-		"impl": "both", "src": src})
-	for _, a := range acts {
-		if a.Op == "tick" {
-			tick(a.D)
-			w.Emit(tr.E{"ev": "call2", "a": a.rec(), "r": rp("ok", 0), "rr": rp("ok", 0), "cmds": fr.take()})
-			continue
-		}
-		mr := m.do(a)
-		rr := r.do(a)
-		w.Emit(tr.E{"ev": "call2", "a": a.rec(), "r": mr, "rr": rr, "cmds": fr.take()})
-	}
+	return foreign
+}
+
+func lostForeign(fr *fakeRedis, foreign []string) int {
 	gone := 0
 	for _, k := range foreign {
 		if _, ok := fr.data[k]; !ok {
 			gone++
 		}
 	}
-	if gone > 0 {
+	return gone
+}
+
+// runBoth executes a history on the in-memory cache and on the redis-backed cache over the
+// fake server, in lock step under the same clock.
+func runBoth(w *tr.W, src string, size, dttl, nk, now, idx int, acts []act) {
+	atomic.StoreInt64(&clock, int64(now))
+	fr := newFake()
+	lazy := idx%2 == 1
+	out := &sink{w: w, lazy: lazy}
+	pfx := prefixes[idx%len(prefixes)]
+	m := newSut(cache.NewTTLMemCache(size, int64(dttl)), idx, lazy)
+	r := newSut(cache.NewTTLRdsCache(fr, "ttl:"+pfx, int64(dttl)), idx+1, lazy)
+	foreign := seedServer(fr, nk)
+	var dc *decoy
+	if idx%3 != 0 {
+		dc = &decoy{s: newSut(cache.NewTTLRdsCache(fr, "dcy:"+pfx, 3), idx+1, false), rng: rand.New(rand.NewSource(int64(idx)*104729 + int64(now))), nk: nk}
+	}
+	w.Emit(tr.E{"ev": "reset", "size": clampI(size), "dttl": clampI(dttl), "nk": nk, "now": now, "threads": 1,
+		"impl": "both", "src": src, "cfg": cfgRaw(size, dttl), "lazy": lazy})
+	for _, a := range acts {
+		if a.Op == "tick" {
+			tick(a.D)
+			out.emit(tr.E{"ev": "call2", "a": a.rec(), "r": rp("ok", 0), "rr": rp("ok", 0), "cmds": fr.take()})
+			continue
+		}
+		dc.poke()
+		fr.take()
+		mr, im := m.call(a)
+		rr, im2 := r.call(a)
+		e := tr.E{"ev": "call2", "a": a.rec(), "r": mr, "rr": rr, "cmds": fr.take()}
+		if a.Op == "set" {
+			e["inmut"] = im && im2
+		}
+		out.emit(e)
+		if m.dead || r.dead {
+			break
+		}
+	}
+	if lostForeign(fr, foreign) > 0 {
 		// Clear removed a key outside its prefix: make it visible to the spec
-		w.Emit(tr.E{"ev": "call2", "a": tr.E{"op": "clear"}, "r": rp("ok", 0),
+		out.emit(tr.E{"ev": "call2", "a": tr.E{"op": "clear"}, "r": rp("ok", 0),
 			"rr": rp("foreign key deleted by Clear", 0), "cmds": fr.take()})
+	}
+	if dc != nil {
+		out.end(m, r, dc.s)
+	} else {
+		out.end(m, r)
+	}
+}
+
+// runRds executes a region history on the redis-backed cache alone, with failures as inputs:
+// a.Inj = "fault" makes the server refuse the call's first command, a.Inj = "ctx" hands the call
+// a context that has already ended (cancelled / deadline in the past).  Either way the call must
+// report a failure (Clear has no result) and change nothing.  The value buffer is reused across
+// Sets, as a caller of a store that copies on the wire may do; an empty cache prefix is used when
+// the server holds no other keys.
+func runRds(w *tr.W, src string, dttl, nk, now, idx int, acts []act) {
+	atomic.StoreInt64(&clock, int64(now))
+	fr := newFake()
+	lazy := idx%2 == 1
+	out := &sink{w: w, lazy: lazy}
+	pfx := "ttl:" + prefixes[idx%len(prefixes)]
+	var foreign []string
+	var dc *decoy
+	if idx%4 == 3 {
+		pfx = "" // the whole database belongs to the cache
+	} else {
+		foreign = seedServer(fr, nk)
+		dc = &decoy{s: newSut(cache.NewTTLRdsCache(fr, "dcy:", 3), idx, false), rng: rand.New(rand.NewSource(int64(idx)*15485863 + int64(now))), nk: nk}
+	}
+	s := newSut(cache.NewTTLRdsCache(fr, pfx, int64(dttl)), idx, lazy)
+	s.scr = make([]byte, 0, 16)
+	w.Emit(tr.E{"ev": "reset", "size": nk + 5, "dttl": clampI(dttl), "nk": nk, "now": now, "threads": 1,
+		"impl": "rds", "src": src, "cfg": cfgRaw(nk+5, dttl), "lazy": lazy})
+	for _, a := range acts {
+		if a.Op == "tick" {
+			tick(a.D)
+			out.emit(tr.E{"ev": "call", "a": a.rec(), "r": rp("ok", 0)})
+			continue
+		}
+		dc.poke()
+		fr.take()
+		fr.fail = a.Inj == "fault"
+		r, im := s.call(a)
+		fr.fail = false
+		e := tr.E{"ev": "call", "a": a.rec(), "r": r, "cmds": fr.take()}
+		if a.Inj != "" {
+			e["inj"] = a.Inj
+		}
+		if a.Op == "set" {
+			e["inmut"] = im
+		}
+		out.emit(e)
+		if s.dead {
+			break
+		}
+	}
+	if lostForeign(fr, foreign) > 0 {
+		out.emit(tr.E{"ev": "call", "a": tr.E{"op": "clear"}, "r": rp("foreign key deleted by Clear", 0), "cmds": fr.take()})
+	}
+	if dc != nil {
+		out.end(s, dc.s)
+	} else {
+		out.end(s)
 	}
 }
 
@@ -617,7 +1018,17 @@ type gen struct {
 	dls  []int // deadlines handed out so far (for boundary-biased ticks)
 }
 
+// extremes of the integer range (no clock comes within 10^9 of the deadlines they give)
+var hugeTTL = []int{1 << 31, 1<<32 + 5, 1 << 40, 1 << 62}
+var hugeNeg = []int{-1 << 31, -1 << 40, math.MinInt64}
+
 func (g *gen) ttlChoice() int {
+	if g.rng.Intn(25) == 0 {
+		if g.rng.Intn(2) == 0 {
+			return hugeNeg[g.rng.Intn(len(hugeNeg))]
+		}
+		return hugeTTL[g.rng.Intn(len(hugeTTL))]
+	}
 	switch x := g.rng.Intn(10); {
 	case x == 0:
 		return 0
@@ -631,7 +1042,7 @@ func (g *gen) ttlChoice() int {
 }
 
 func (g *gen) note(ttl int) {
-	if ttl > 0 {
+	if ttl > 0 && ttl < 1000000 {
 		g.dls = append(g.dls, g.now+ttl)
 	}
 }
@@ -660,6 +1071,9 @@ func (g *gen) memAct() act {
 	case x < 34:
 		g.nv++
 		a := act{Op: "set", K: k, V: g.nv, Nx: g.rng.Intn(3) == 0, Keep: g.rng.Intn(3) == 0}
+		if g.rng.Intn(12) == 0 {
+			a.V = 0 // the empty value
+		}
 		if g.rng.Intn(2) == 0 {
 			a.Ht, a.TTL = true, g.ttlChoice()
 			g.note(a.TTL)
@@ -702,7 +1116,13 @@ func randMem(w *tr.W, rng *rand.Rand, i, maxops int) {
 	if rng.Intn(3) == 0 {
 		nk = size + 1 + rng.Intn(2) // just above the bound
 	}
+	if i%12 == 5 {
+		size = []int{math.MaxInt32 + 1, 1 << 40, math.MaxInt}[rng.Intn(3)]
+	}
 	dttl := []int{-3, 0, 0, 1, 2, 3, 5, 8}[rng.Intn(8)]
+	if i%10 == 7 {
+		dttl = append(append([]int{}, hugeTTL...), hugeNeg...)[rng.Intn(len(hugeTTL)+len(hugeNeg))]
+	}
 	now := 1 + rng.Intn(1000000)
 	g := &gen{rng: rng, nk: nk, dttl: dttl, now: now}
 	n := 5 + rng.Intn(maxops)
@@ -717,14 +1137,44 @@ func randMem(w *tr.W, rng *rand.Rand, i, maxops int) {
 // region histories: the generator keeps the (deterministic) liveness of every key so that
 // keep-ttl is applied to live keys only and the clock never stops on a live key's deadline.
 func randBoth(w *tr.W, rng *rand.Rand, i, maxops int) {
+	size, dttl, nk, start, acts := genRegion(rng, i, maxops, false)
+	runBoth(w, "randr", size, dttl, nk, start, i, acts)
+}
+
+// randRds: the same region histories on the redis-backed cache alone, with failures injected
+func randRds(w *tr.W, rng *rand.Rand, i, maxops int) {
+	_, dttl, nk, start, acts := genRegion(rng, i, maxops, true)
+	runRds(w, "randf", dttl, nk, start, i, acts)
+}
+
+// ttls that the redis-backed cache can carry (time.Duration holds 292 years)
+var bigRegionTTL = []int{1 << 31, 1<<32 + 5, 1 << 33}
+
+func genRegion(rng *rand.Rand, i, maxops int, inject bool) (int, int, int, int, []act) {
 	nk := 2 + rng.Intn(9)
 	size := nk + rng.Intn(3)
+	if i%9 == 4 {
+		size = []int{math.MaxInt32 + 1, 1 << 40, math.MaxInt}[rng.Intn(3)]
+	}
 	dttl := []int{0, -2, 1, 2, 3, 5, 8}[rng.Intn(7)]
+	if i%11 == 6 {
+		dttl = bigRegionTTL[rng.Intn(len(bigRegionTTL))]
+	}
 	now := 1 + rng.Intn(1000000)
 	start := now
+	// inj decides, for the call being generated, whether it fails; a failed call changes nothing
+	inj := func() string {
+		if !inject || rng.Intn(6) != 0 {
+			return ""
+		}
+		return []string{"fault", "ctx"}[rng.Intn(2)]
+	}
 	dl := map[int]int{} // live keys -> deadline
 	live := func(k int) bool { d, ok := dl[k]; return ok && now < d }
 	pos := func() int {
+		if rng.Intn(30) == 0 {
+			return bigRegionTTL[rng.Intn(len(bigRegionTTL))]
+		}
 		if rng.Intn(2) == 0 {
 			return 1 + rng.Intn(3)
 		}
@@ -776,7 +1226,11 @@ func randBoth(w *tr.W, rng *rand.Rand, i, maxops int) {
 			if live(k) && rng.Intn(3) == 0 {
 				a.Keep = true
 			}
-			if !(a.Nx && live(k)) {
+			if rng.Intn(12) == 0 {
+				a.V = 0 // the empty value
+			}
+			a.Inj = inj()
+			if a.Inj == "" && !(a.Nx && live(k)) {
 				if !(a.Keep && live(k)) {
 					dl[k] = now + eff
 				}
@@ -790,7 +1244,8 @@ func randBoth(w *tr.W, rng *rand.Rand, i, maxops int) {
 					a.TTL = pos()
 				}
 			}
-			if live(k) {
+			a.Inj = inj()
+			if a.Inj == "" && live(k) {
 				if a.Rm {
 					delete(dl, k)
 				} else if a.Upd {
@@ -806,11 +1261,12 @@ func randBoth(w *tr.W, rng *rand.Rand, i, maxops int) {
 			// candidates: around a pending deadline, or a small step; never onto a live deadline
 			var cands []int
 			for _, d := range dl {
-				if d > now {
+				if d > now && d-now < 1000 {
 					cands = append(cands, d-1-now, d+1-now)
 				}
 			}
 			cands = append(cands, 1, 2, 3)
+			sort.Ints(cands) // map order is random: keep the history a function of the seed
 			rng.Shuffle(len(cands), func(a, b int) { cands[a], cands[b] = cands[b], cands[a] })
 			for _, d := range cands {
 				if d < 1 {
@@ -829,11 +1285,17 @@ func randBoth(w *tr.W, rng *rand.Rand, i, maxops int) {
 				}
 			}
 		case x < 91:
-			delete(dl, k)
-			acts = append(acts, act{Op: "rem", K: k})
+			a := act{Op: "rem", K: k, Inj: inj()}
+			if a.Inj == "" {
+				delete(dl, k)
+			}
+			acts = append(acts, a)
 		case x < 94:
-			dl = map[int]int{}
-			acts = append(acts, act{Op: "clear"})
+			a := act{Op: "clear", Inj: inj()}
+			if a.Inj == "" {
+				dl = map[int]int{}
+			}
+			acts = append(acts, a)
 		default:
 			ks := allKeys(nk)
 			rng.Shuffle(len(ks), func(a, b int) { ks[a], ks[b] = ks[b], ks[a] })
@@ -841,14 +1303,87 @@ func randBoth(w *tr.W, rng *rand.Rand, i, maxops int) {
 		}
 	}
 	acts = append(acts, act{Op: "probe", Ks: allKeys(nk)})
-	runBoth(w, "randr", size, dttl, nk, start, i, acts)
+	return size, dttl, nk, start, acts
+}
+
+// race runs the programs on goroutines released together by a spin barrier (the calls are far
+// shorter than a goroutine wake-up); inv/res are logged under one mutex outside the cache's lock.
+// Goroutines that have not come back when the watchdog fires are counted, not waited for.
+func race(s *sut, progs [][]act) ([]tr.E, int) {
+	var mu sync.Mutex
+	evs := make([]tr.E, 0, 8*len(progs))
+	logf := func(e tr.E) {
+		mu.Lock()
+		evs = append(evs, e)
+		mu.Unlock()
+	}
+	done := make(chan struct{}, len(progs))
+	var ready, start int32
+	for t := range progs {
+		go func(t int) {
+			atomic.AddInt32(&ready, 1)
+			for atomic.LoadInt32(&start) == 0 {
+			}
+			for _, b := range progs[t] {
+				logf(tr.E{"ev": "inv", "t": t + 1, "a": b.rec()})
+				r, _ := s.do(b)
+				logf(tr.E{"ev": "res", "t": t + 1, "r": r})
+			}
+			done <- struct{}{}
+		}(t)
+	}
+	for atomic.LoadInt32(&ready) < int32(len(progs)) {
+		runtime.Gosched()
+	}
+	atomic.StoreInt32(&start, 1)
+	timer := time.NewTimer(watchdog)
+	defer timer.Stop()
+	stuck := 0
+	for n := 0; n < len(progs) && stuck == 0; {
+		select {
+		case <-done:
+			n++
+		case <-timer.C:
+			stuck = len(progs) - n
+			s.dead = true
+		}
+	}
+	mu.Lock()
+	out := append([]tr.E{}, evs...)
+	mu.Unlock()
+	return out, stuck
+}
+
+func raceOp(rng *rand.Rand, k, nk int, nv *int) act {
+	if rng.Intn(10) < 3 {
+		k = rng.Intn(nk) + 1
+	}
+	switch x := rng.Intn(20); {
+	case x < 9:
+		return act{Op: "get", K: k, Rm: true}
+	case x < 11:
+		return act{Op: "get", K: k}
+	case x < 12:
+		return act{Op: "get", K: k, Upd: true, TTL: 3 + rng.Intn(3)}
+	case x < 14:
+		*nv++
+		return act{Op: "set", K: k, V: *nv, Nx: true}
+	case x < 16:
+		*nv++
+		return act{Op: "set", K: k, V: *nv}
+	case x < 18:
+		return act{Op: "rem", K: k}
+	default:
+		return act{Op: "clear"}
+	}
 }
 
 // concurrent rounds on the in-memory cache: goroutines race on one key (mostly
-// remove-after-get reads); inv/res are logged under one mutex outside the cache's lock.
+// remove-after-get reads, but every call of the interface takes part); "heavy" rounds race one
+// Clear of a filled cache against callers that only read.
 func runConc(w *tr.W, rng *rand.Rand, i int) {
 	threads := 2 + rng.Intn(3)
-	nk := 1 + rng.Intn(2)
+	nk := 1 + rng.Intn(4)
 	size := nk + rng.Intn(2)
 	if rng.Intn(5) == 0 {
 		size = 1
@@ -856,76 +1391,107 @@ func runConc(w *tr.W, rng *rand.Rand, i int) {
 	dttl := []int{0, 4}[rng.Intn(2)]
 	now := 1 + rng.Intn(1000)
 	atomic.StoreInt64(&clock, int64(now))
-	s := &sut{c: cache.NewTTLMemCache(size, int64(dttl)), prefix: prefixes[i%len(prefixes)]}
+	lazy := i%2 == 1
+	out := &sink{w: w, lazy: lazy}
+	s := newSut(cache.NewTTLMemCache(size, int64(dttl)), i, lazy)
 	w.Emit(tr.E{"ev": "reset", "size": size, "dttl": dttl, "nk": nk, "now": now, "threads": threads,
-		"impl": "mem", "src": "conc"})
+		"impl": "mem", "src": "conc", "lazy": lazy})
 	nv := 0
 	rounds := 2 + rng.Intn(3)
-	for rd := 0; rd < rounds; rd++ {
+	for rd := 0; rd < rounds && !s.dead; rd++ {
 		k := rng.Intn(nk) + 1
-		nv++
-		a := act{Op: "set", K: k, V: nv}
-		w.Emit(tr.E{"ev": "call", "a": a.rec(), "r": s.do(a)})
+		heavy := rng.Intn(4) == 0
+		for _, kk := range allKeys(nk) {
+			if kk == k || heavy {
+				nv++
+				a := act{Op: "set", K: kk, V: nv}
+				r, im := s.call(a)
+				out.emit(tr.E{"ev": "call", "a": a.rec(), "r": r, "inmut": im})
+			}
+		}
 		if rng.Intn(4) == 0 {
 			d := 1 + rng.Intn(4)
 			tick(d)
-			w.Emit(tr.E{"ev": "call", "a": act{Op: "tick", D: d}.rec(), "r": rp("ok", 0)})
+			out.emit(tr.E{"ev": "call", "a": act{Op: "tick", D: d}.rec(), "r": rp("ok", 0)})
 		}
 		progs := make([][]act, threads)
 		for t := range progs {
-			for n := 1 + rng.Intn(2); n > 0; n-- {
-				var b act
-				switch x := rng.Intn(10); {
-				case x < 6:
-					b = act{Op: "get", K: k, Rm: true}
-				case x < 7:
-					b = act{Op: "get", K: k}
-				case x < 8:
-					nv++
-					b = act{Op: "set", K: k, V: nv, Nx: true}
-				case x < 9:
-					nv++
-					b = act{Op: "set", K: rng.Intn(nk) + 1, V: nv}
-				default:
-					b = act{Op: "rem", K: k}
+			if heavy {
+				if t == 0 {
+					progs[t] = []act{{Op: "clear"}}
+				} else {
+					progs[t] = []act{{Op: "get", K: rng.Intn(nk) + 1}, {Op: "get", K: rng.Intn(nk) + 1}}
 				}
-				progs[t] = append(progs[t], b)
+				continue
+			}
+			for n := 1 + rng.Intn(2); n > 0; n-- {
+				progs[t] = append(progs[t], raceOp(rng, k, nk, &nv))
 			}
 		}
-		var mu sync.Mutex
-		var evs []tr.E
-		logf := func(e tr.E) {
-			mu.Lock()
-			evs = append(evs, e)
-			mu.Unlock()
-		}
-		var wg sync.WaitGroup
-		var ready, start int32 // spin barrier: the calls are far shorter than a goroutine wake-up
-		for t := 0; t < threads; t++ {
-			wg.Add(1)
-			go func(t int) {
-				defer wg.Done()
-				atomic.AddInt32(&ready, 1)
-				for atomic.LoadInt32(&start) == 0 {
-				}
-				for _, b := range progs[t] {
-					logf(tr.E{"ev": "inv", "t": t + 1, "a": b.rec()})
-					r := s.do(b)
-					logf(tr.E{"ev": "res", "t": t + 1, "r": r})
-				}
-			}(t)
-		}
-		for atomic.LoadInt32(&ready) < int32(threads) {
-			runtime.Gosched()
-		}
-		atomic.StoreInt32(&start, 1)
-		wg.Wait()
+		evs, stuck := race(s, progs)
 		for _, e := range evs {
-			w.Emit(e)
+			out.emit(e)
+		}
+		if stuck > 0 {
+			out.emit(tr.E{"ev": "stuck", "n": stuck})
 		}
 	}
-	p := act{Op: "probe", Ks: allKeys(nk)}
-	w.Emit(tr.E{"ev": "call", "a": p.rec(), "r": s.do(p)})
+	if !s.dead {
+		p := act{Op: "probe", Ks: allKeys(nk)}
+		r, _ := s.call(p)
+		out.emit(tr.E{"ev": "call", "a": p.rec(), "r": r})
+	}
+	out.end(s)
+}
+
+// cold start: a FRESH cache is first touched by several goroutines released together; many
+// cheap rounds, one trace each.
+func runCold(w *tr.W, rng *rand.Rand, i int) {
+	threads := 2 + rng.Intn(3)
+	nk := 1 + rng.Intn(2)
+	size := []int{0, 1, 1, 2, 3}[rng.Intn(5)]
+	dttl := []int{0, 3}[rng.Intn(2)]
+	now := 1 + rng.Intn(1000)
+	atomic.StoreInt64(&clock, int64(now))
+	lazy := i%2 == 1
+	out := &sink{w: w, lazy: lazy}
+	s := newSut(cache.NewTTLMemCache(size, int64(dttl)), i, lazy)
+	w.Emit(tr.E{"ev": "reset", "size": size, "dttl": dttl, "nk": nk, "now": now, "threads": threads,
+		"impl": "mem", "src": "cold", "lazy": lazy})
+	nv := 0
+	progs := make([][]act, threads)
+	for t := range progs {
+		for n := 1 + rng.Intn(2); n > 0; n-- {
+			var b act
+			switch x := rng.Intn(20); {
+			case x < 10:
+				nv++
+				b = act{Op: "set", K: 1, V: nv, Nx: true}
+			case x < 14:
+				nv++
+				b = act{Op: "set", K: rng.Intn(nk) + 1, V: nv}
+			case x < 17:
+				b = act{Op: "get", K: 1, Rm: true}
+			case x < 19:
+				b = act{Op: "get", K: 1}
+			default:
+				b = act{Op: "clear"}
+			}
+			progs[t] = append(progs[t], b)
+		}
+	}
+	evs, stuck := race(s, progs)
+	for _, e := range evs {
+		out.emit(e)
+	}
+	if stuck > 0 {
+		out.emit(tr.E{"ev": "stuck", "n": stuck})
+	} else {
+		p := act{Op: "probe", Ks: allKeys(nk)}
+		r, _ := s.call(p)
+		out.emit(tr.E{"ev": "call", "a": p.rec(), "r": r})
+	}
+	out.end(s)
 }
 
 // racing callers on ONE key of the redis-backed cache.  Every command the cache sends to the fake
@@ -945,22 +1511,30 @@ func runRdsConc(w *tr.W, rng *rand.Rand, i int) {
 	atomic.StoreInt64(&clock, int64(now))
 	fr := newFake()
 	c := cache.NewTTLRdsCache(fr, "ttl:"+prefixes[i%len(prefixes)], int64(dttl))
-	s := &sut{c: c, prefix: "k"}
+	lazy := i%2 == 1
+	out := &sink{w: w, lazy: lazy}
+	s := newSut(c, i, lazy)
+	suts := []*sut{s}
 	w.Emit(tr.E{"ev": "reset", "size": nk + 2, "dttl": dttl, "nk": nk, "now": now, "threads": threads,
-		"impl": "rds", "src": "rconc"})
+		"impl": "rds", "src": "rconc", "lazy": lazy})
 	nv, ticks := 0, 0
 	rounds := 2 + rng.Intn(3)
-	for rd := 0; rd < rounds; rd++ {
+	cold := i%3 == 0 // the fresh cache is first used by the racing callers
+	if cold {
+		rounds = 1
+	}
+	for rd := 0; rd < rounds && !s.dead; rd++ {
 		k := rng.Intn(nk) + 1
-		if rng.Intn(5) != 0 {
+		if !cold && rng.Intn(5) != 0 {
 			nv++
 			a := act{Op: "set", K: k, V: nv}
-			w.Emit(tr.E{"ev": "call", "a": a.rec(), "r": s.do(a), "cmds": fr.take()})
+			r, im := s.call(a)
+			out.emit(tr.E{"ev": "call", "a": a.rec(), "r": r, "inmut": im, "cmds": fr.take()})
 		}
 		if ticks < 3 && rng.Intn(4) == 0 { // ttl 10, at most 3 s per trace: far from every deadline
 			ticks++
 			tick(1)
-			w.Emit(tr.E{"ev": "call", "a": act{Op: "tick", D: 1}.rec(), "r": rp("ok", 0)})
+			out.emit(tr.E{"ev": "call", "a": act{Op: "tick", D: 1}.rec(), "r": rp("ok", 0)})
 		}
 		progs := make([][]act, threads)
 		for t := range progs {
@@ -980,6 +1554,9 @@ func runRdsConc(w *tr.W, rng *rand.Rand, i int) {
 				default:
 					b = act{Op: "rem", K: k}
 				}
+				if rng.Intn(12) == 0 {
+					b.Inj = "ctx" // this caller's context has already ended
+				}
 				progs[t] = append(progs[t], b)
 			}
 		}
@@ -990,20 +1567,40 @@ func runRdsConc(w *tr.W, rng *rand.Rand, i int) {
 		fr.sch = sc
 		evs := make([]tr.E, 0, 8*threads) // appended by the one running caller only
 		state := make([]int, threads)
-		for t := 0; t < threads; t++ {
+		stuck := 0
+		// next waits for the running caller to park at a gate or to finish; a caller that does
+		// neither within the watchdog is reported, not waited for
+		next := func() bool {
+			t := time.NewTimer(watchdog)
+			defer t.Stop()
+			select {
+			case sg := <-sc.ev:
+				state[sg.p] = sg.kind
+				return true
+			case <-t.C:
+				stuck++
+				return false
+			}
+		}
+		for t := 0; t < threads && stuck == 0; t++ {
+			me := newSut(c, i, lazy)
+			me.ctx = context.WithValue(context.Background(), callerKey{}, t)
+			suts = append(suts, me)
 			go func(t int) {
-				me := &sut{c: c, prefix: "k", ctx: context.WithValue(context.Background(), callerKey{}, t)}
 				for _, b := range progs[t] {
-					evs = append(evs, tr.E{"ev": "inv", "t": t + 1, "a": b.rec()})
-					r := me.do(b)
+					e := tr.E{"ev": "inv", "t": t + 1, "a": b.rec()}
+					if b.Inj != "" {
+						e["inj"] = b.Inj
+					}
+					evs = append(evs, e)
+					r, _ := me.do(b)
 					evs = append(evs, tr.E{"ev": "res", "t": t + 1, "r": r})
 				}
 				sc.ev <- sig{t, finished}
 			}(t)
-			sg := <-sc.ev // runs until its first command (or to the end)
-			state[sg.p] = sg.kind
+			next() // runs until its first command (or to the end)
 		}
-		for {
+		for stuck == 0 {
 			var parked []int
 			for t, st := range state {
 				if st == atGate {
@@ -1016,19 +1613,25 @@ func runRdsConc(w *tr.W, rng *rand.Rand, i int) {
 			p := parked[rng.Intn(len(parked))]
 			state[p] = 0
 			sc.grant[p] <- struct{}{}
-			sg := <-sc.ev
-			state[sg.p] = sg.kind
+			next()
 		}
-		fr.sch = nil
 		cmds := fr.take()
 		for _, e := range evs {
-			w.Emit(e)
+			out.emit(e)
 		}
+		if stuck > 0 {
+			s.dead = true
+			out.emit(tr.E{"ev": "stuck", "n": stuck, "cmds": cmds})
+			break
+		}
+		fr.sch = nil
 		// what the round left behind (a Set that landed in between must still be there)
 		p := act{Op: "probe", Ks: allKeys(nk)}
-		w.Emit(tr.E{"ev": "call", "a": p.rec(), "r": s.do(p), "cmds": cmds})
+		r, _ := s.call(p)
+		out.emit(tr.E{"ev": "call", "a": p.rec(), "r": r, "cmds": cmds})
 		fr.take()
 	}
+	out.end(suts...)
 }
 
 func main() {
@@ -1041,6 +1644,8 @@ func main() {
 	nhist := flag.Int("hist", 200, "random in-memory histories")
 	nboth := flag.Int("nboth", 150, "random region histories")
 	nconc := flag.Int("nconc", 60, "concurrent histories")
+	nrds := flag.Int("nrds", 60, "region histories on the redis-backed cache alone, failures injected")
+	ncold := flag.Int("ncold", 100, "cold-start races on a fresh in-memory cache")
 	nrconc := flag.Int("nrconc", 60, "concurrent histories on the redis-backed cache (scheduled commands)")
 	maxops := flag.Int("maxops", 60, "max ops per history")
 	flag.Parse()
@@ -1072,6 +1677,9 @@ func main() {
 	for i := 0; i < *nboth; i++ {
 		randBoth(bw, rng, i, *maxops)
 	}
+	for i := 0; i < *nrds; i++ {
+		randRds(bw, rng, i, *maxops)
+	}
 	bw.Close()
 
 	cw := tr.Create(*conc)
@@ -1080,6 +1688,9 @@ func main() {
 	}
 	for i := 0; i < *nrconc; i++ {
 		runRdsConc(cw, rng, i)
+	}
+	for i := 0; i < *ncold; i++ {
+		runCold(cw, rng, i)
 	}
 	cw.Close()
 	fmt.Printf("mem_events=%d both_events=%d conc_events=%d\n", w.N(), bw.N(), cw.N())
